@@ -205,15 +205,15 @@ def run_align(case):
         out = []
         for row in arr:
             hit = [k for k, p in enumerate(r["start_pos"]) if (p == row).all()] + \
-                  [1000 + k for k, p in enumerate(r["end_pos"]) if (p == row).all()]
-            out.append(hit[0] if len(hit) == 1 else 9999)
+                  [100 + k for k, p in enumerate(r["end_pos"]) if (p == row).all()]
+            out.append(hit[0] if len(hit) == 1 else 999)
         return out
     ft, mt = tags(fixed), tags(mobile)
-    src = set(t // 1000 for t in ft if t != 9999)
+    src = set(t // 100 for t in ft if t != 999)
     if ft:
         fixed_is_start = src == {0}
     else:
-        fixed_is_start = not (len(mt) > 0 and all(t < 1000 for t in mt))
+        fixed_is_start = not (len(mt) > 0 and all(t < 100 for t in mt))
     return {"call": {"fixed_is_start": bool(fixed_is_start), "fixed_tags": ft, "mobile_tags": mt,
                      "restr": [(int(p[0]), int(p[1])) for p in a[5]], "deform": [int(x) for x in a[8]]},
             "fixed": fixed, "mobile": mobile, "start_pos": r["start_pos"], "end_pos": r["end_pos"]}
@@ -230,7 +230,7 @@ def run_remove(spec, restr):
     tags = []
     for row in np.array(pos, dtype=float).reshape(-1, 3):
         hit = [k for k, p in enumerate(allpos) if (p == row).all()]
-        tags.append(hit[0] if len(hit) == 1 else 9999)
+        tags.append(hit[0] if len(hit) == 1 else 999)
     return {"tags": tags, "restr": [(int(a), int(b)) for a, b in new]}
 
 
@@ -554,10 +554,6 @@ def oracle_align(case, obs=None):
         return []      # nothing is aligned (a single end atom): the property is about what reaches the optimiser
     if obs is None:
         obs = run_align(case)
-    swap = ns < ne
-    mobile_spec = s if swap else e
-    fixed_spec = e if swap else s
-    valid = spec_connected(mobile_spec) and (not case["ign"] or all(has_letter(a[0]) for a in fixed_spec["atoms"]))
     intended = case["restr"]
     if intended is None:
         intended = []
@@ -566,18 +562,29 @@ def oracle_align(case, obs=None):
             if "err" in g:
                 return [] if "err" in obs else ["guess refused but the alignment ran"]
             intended = g["ok"]
-    if "err" in obs:
-        return ["alignment raised %s on a valid input" % obs.get("exc", obs["err"])] if valid else []
-    if "nocall" in obs:
-        return ["optimiser never called"] if valid else []
-    if not valid:
-        return []
+
+    def valid_for(swap_):
+        mob, fix = (s, e) if swap_ else (e, s)
+        return spec_connected(mob) and (not case["ign"] or all(has_letter(a[0]) for a in fix["atoms"]))
+    if "call" not in obs:
+        # no optimiser call: a violation only if the input is valid whichever molecule is taken as the fixed one
+        roles = [ns < ne] if ns != ne else [True, False]
+        if not all(valid_for(r) for r in roles):
+            return []
+        return ["alignment raised %s on a valid input" % obs.get("exc", obs["err"])] if "err" in obs else ["optimiser never called"]
     c = obs["call"]
     bad = []
+    # which molecule is the mobile one is read off the call (the property does not fix the choice)
+    mob_start = obs["mobile"].shape == obs["start_pos"].shape and bool((obs["mobile"] == obs["start_pos"]).all())
+    mob_end = obs["mobile"].shape == obs["end_pos"].shape and bool((obs["mobile"] == obs["end_pos"]).all())
+    if mob_start == mob_end:
+        return ["the mobile positions are those of neither molecule (or of both)"]
+    swap = mob_start
+    fixed_spec = e if swap else s
+    if not valid_for(swap):
+        return []
     fixed_now = obs["end_pos"] if swap else obs["start_pos"]      # positions of the molecules at call time
     mobile_now = obs["start_pos"] if swap else obs["end_pos"]
-    if obs["mobile"].shape != mobile_now.shape or not (obs["mobile"] == mobile_now).all():
-        bad.append("the mobile positions are not those of the smaller molecule")
     expect = []
     for i, j in intended:
         f, m = (j, i) if swap else (i, j)
@@ -696,30 +703,31 @@ def oracle_manager(sysspec, opt, man=None):
 
 
 # ------------------------------------------------------------------ corpus (hand-picked witnesses of the anchored mechanisms)
-def _spec(names, resn=None, bonds=None):
+def _spec(names, resn=None, bonds=None, d=0.0):
     n = len(names)
     resn = resn or [("RES", 1)] * n
-    pos = [[0.1 * k + 0.013 * (k * k % 7), 0.2 * ((k * 5) % 3) + 0.01 * k, 0.05 * k * k + 0.3] for k in range(n)]
+    pos = [[0.1 * k + 0.013 * (k * k % 7) + d, 0.2 * ((k * 5) % 3) + 0.01 * k + d * d, 0.05 * k * k + 0.3 - 0.7 * d * k]
+           for k in range(n)]
     return {"atoms": [[nm, r[0], r[1]] for nm, r in zip(names, resn)], "pos": pos,
             "bonds": bonds or [[k, k + 1] for k in range(n - 1)]}
 
 
 CORPUS_ALIGN = [
     # start larger, hydrogens before the restrained atoms: the fixed-side index must be renumbered
-    {"kind": "align", "start": _spec(["H0", "C1", "H2", "C3", "O4"]), "end": _spec(["B0", "B1", "B2"]),
+    {"kind": "align", "start": _spec(["H0", "C1", "H2", "C3", "O4"]), "end": _spec(["B0", "B1", "B2"], d=0.37),
      "restr": [[1, 0], [3, 2], [0, 1], [4, 1], [3, 2]], "deform": None, "ign": True, "autog": True},
     # start smaller: roles swap, pairs reversed, hydrogens filtered out of the END molecule
-    {"kind": "align", "start": _spec(["B0", "H1", "B2"]), "end": _spec(["H0", "C1", "1H", "C3", "O4", "HA5"]),
+    {"kind": "align", "start": _spec(["B0", "H1", "B2"]), "end": _spec(["H0", "C1", "1H", "C3", "O4", "HA5"], d=0.37),
      "restr": [[0, 1], [1, 3], [2, 5], [0, 0], [2, 2]], "deform": [0, 1], "ign": True, "autog": True},
     # same without filtering
-    {"kind": "align", "start": _spec(["B0", "H1", "B2"]), "end": _spec(["H0", "C1", "1H", "C3", "O4", "HA5"]),
+    {"kind": "align", "start": _spec(["B0", "H1", "B2"]), "end": _spec(["H0", "C1", "1H", "C3", "O4", "HA5"], d=0.37),
      "restr": [[0, 1], [1, 3], [2, 5], [0, 0], [2, 2]], "deform": None, "ign": False, "autog": True},
     # multi-residue start, no restraints given: guessed, then swapped and filtered
     {"kind": "align", "start": _spec(["C0", "C1", "C2"], [("ALA", 1), ("GLY", 2), ("GLY", 2)]),
-     "end": _spec(["N0", "H1", "C2", "H3", "O4", "C5", "H6"], [("ALA", 1)] * 4 + [("GLY", 2)] * 3),
+     "end": _spec(["N0", "H1", "C2", "H3", "O4", "C5", "H6"], [("ALA", 1)] * 4 + [("GLY", 2)] * 3, d=0.37),
      "restr": None, "deform": None, "ign": True, "autog": True},
     # equal sizes: start stays fixed
-    {"kind": "align", "start": _spec(["H0", "C1", "C2"]), "end": _spec(["C0", "H1", "C2"]),
+    {"kind": "align", "start": _spec(["H0", "C1", "C2"]), "end": _spec(["C0", "H1", "C2"], d=0.37),
      "restr": [[0, 0], [1, 1], [2, 2]], "deform": None, "ign": True, "autog": True},
 ]
 
@@ -760,7 +768,7 @@ def correspondence(ctx):
     for case in align_cases:
         obs = run_align(case)
         term = "chk_align %s %s %s %s %s %s %s" % (
-            t_mol(case["start"], 0), t_mol(case["end"], 1000),
+            t_mol(case["start"], 0), t_mol(case["end"], 100),
             t_opt(case["restr"], t_zz_list), t_opt(case["deform"], t_z_list),
             t_bool(case["ign"]), t_bool(case["autog"]), t_obs_align(obs))
         add(term, case)
@@ -828,7 +836,7 @@ def correspondence(ctx):
         s1, s2, kind = gen_protein_pair(rs)
         o = run_protein(s1, s2)
         obs = "(Err %s)" % o["err"] if "err" in o else "(Ok %s)" % t_nn_list(o["ok"])
-        add("chk_protein %s %s %s" % (t_mol(s1, 0), t_mol(s2, 1000), obs), {"kind": "protein", "m1": s1, "m2": s2})
+        add("chk_protein %s %s %s" % (t_mol(s1, 0), t_mol(s2, 100), obs), {"kind": "protein", "m1": s1, "m2": s2})
         _hist(hist, "protein/%s/%s" % (kind, "err" if "err" in o else "ok"))
         ctx.count(("protein", json.dumps(s1), json.dumps(s2)), True)
         bad = oracle_protein(s1, s2)
